@@ -62,6 +62,21 @@ OnlyValid(F, ids) == \A i \in ids : F[i].valid
 Classes(F, V) == { { j \in V : SameClass(F[i], F[j]) } : i \in V }
 Exact(F, V, groups) == groups = Classes(F, V)
 
+(* The same for a Hamming distance > 0, wherever the ground truth is unambiguous: when "UMI within the     *)
+(* distance" is transitive on the UMIs seen at one (cell, contig, strand, site) - so that it is an        *)
+(* equivalence there - the fragments of that site are grouped exactly by it.  (With a non-transitive      *)
+(* constellation, e.g. AA-AC-CC at distance 1, the statement does not say which chain members belong       *)
+(* together and nothing is demanded.)  For hd = 0 this is Exact.                                          *)
+SameSite(f, g) == f.cell = g.cell /\ f.contig = g.contig /\ f.strand = g.strand /\ f.site = g.site
+ExactHD(hd, F, V, groups) ==
+    LET SC(i) == { j \in V : SameSite(F[i], F[j]) }
+        leaders == { i \in V : \A j \in SC(i) : i <= j }
+        Us(i) == { F[j].umi : j \in SC(i) }
+        Transitive(U) == \A a, b, c \in U : (UmiClose(hd, a, b) /\ UmiClose(hd, b, c)) => UmiClose(hd, a, c)
+        Together(i, j) == \E g \in groups : i \in g /\ j \in g
+    IN \A l \in leaders : Transitive(Us(l)) =>
+           \A i, j \in SC(l) : Together(i, j) <=> UmiClose(hd, F[i].umi, F[j].umi)
+
 (* tags: recs = sequence of [dup, rc, af, tf] of the fragments of one molecule *)
 OnePrimary(recs) == Cardinality({ k \in DOMAIN recs : ~recs[k].dup }) = 1
 Counts(recs, overflow) ==
